@@ -58,7 +58,8 @@ Proof.
   - destruct (Cursor.eval_address mb b pos false) as [a| |] eqn:E; try discriminate.
     rewrite (eval_address_mono _ _ _ _ E). exact H.
   - match type of H with match ?x with EOk _ => _ | EErr => _ end = _ => destruct x as [[v c]|] eqn:E; [|discriminate] end.
-    rewrite (eval_mono code_ops _ _ Hpv _ _ _ E). exact H.
+    rewrite (eval_mono code_ops _ _ Hpv _ _ _ E). cbn [andb] in *.
+    match type of H with (if ?c then _ else _) = _ => destruct c; [discriminate|] end. exact H.
   - destruct (nth_error (s_instr st) i) as [d|]; [|discriminate].
     match type of H with match ?x with EOk _ => _ | EErr => _ end = _ => destruct x as [[e|]|] eqn:E; try discriminate end.
     rewrite (resolve_encoding_mono defs _ _ Hpv _ _ E). exact H.
